@@ -62,17 +62,17 @@ class C10(Prop):
             m.reset()
         except Exception as e:
             v.bad('reset-raises:' + type(e).__name__, '%s [dense online]: reset() raised %s: %s' % (
-                text, type(e).__name__, e), 'D-dense-reset')
+                text, type(e).__name__, e))
             return v
         try:
             got = m.update(*args(case['post_sig']))
         except Exception as e:
             v.bad('update-after-reset-raises:' + type(e).__name__, '%s [dense online]: update after reset() raised %s'
-                  % (text, type(e).__name__), 'D-dense-reset')
+                  % (text, type(e).__name__))
             return v
         if repr(got) != repr(want):
             v.bad('differs-from-fresh', '%s [dense online] pre=%s post=%s: after reset() update returns %s, a fresh '
-                  'monitor %s' % (text, case['pre_sig'], case['post_sig'], got, want), 'D-dense-reset')
+                  'monitor %s' % (text, case['pre_sig'], case['post_sig'], got, want))
         return v
 
     def gen(self, rng, ctx):
